@@ -791,10 +791,10 @@ func (e *Engine) findIndicesBoundedBacktrackerAt(haystack []byte, at int) (int, 
 	// For start-anchored patterns, limit the IsASCII check to a small prefix
 	// to avoid O(n) scan of the entire input when only position 0 matters.
 	if e.asciiBoundedBacktracker != nil {
+		// The whole remaining input has to be ASCII: the ASCII-only automaton
+		// is run over all of it (^.*x scans to the end), so checking a 4096-byte
+		// prefix is not enough (4096 x 'a' + "éx" was searched with it).
 		asciiCheck := remaining
-		if e.isStartAnchored && len(asciiCheck) > 4096 {
-			asciiCheck = asciiCheck[:4096]
-		}
 		if simd.IsASCII(asciiCheck) {
 			if !e.asciiBoundedBacktracker.CanHandle(len(remaining)) {
 				if e.dfa != nil && e.reverseDFA != nil {
@@ -1251,10 +1251,10 @@ func (e *Engine) findIndicesBoundedBacktrackerAtWithState(haystack []byte, at in
 	// For start-anchored patterns, limit the IsASCII check to a small prefix
 	// to avoid O(n) scan of the entire input when only position 0 matters.
 	if e.asciiBoundedBacktracker != nil {
+		// The whole remaining input has to be ASCII: the ASCII-only automaton
+		// is run over all of it (^.*x scans to the end), so checking a 4096-byte
+		// prefix is not enough (4096 x 'a' + "éx" was searched with it).
 		asciiCheck := remaining
-		if e.isStartAnchored && len(asciiCheck) > 4096 {
-			asciiCheck = asciiCheck[:4096]
-		}
 		if simd.IsASCII(asciiCheck) {
 			if !e.asciiBoundedBacktracker.CanHandle(len(remaining)) {
 				// Bidirectional DFA: O(n) vs PikeVM's O(n*states)
